@@ -443,7 +443,10 @@ func (w *World) newCall() *call {
 		c.Kind = "proxy"
 	}
 	if t.Chance(1, 6) {
-		c.Deadline = []time.Duration{500 * time.Millisecond, 3 * time.Second, 30 * time.Second}[t.Intn(3)]
+		// off the whole-second grid on which a group race starts its later requests (PostBatchInterval): a deadline that
+		// falls on the very instant of such a start is a select tie inside the code under test, which the driver of
+		// the ordinary spec cannot order (seen as re-executions that differed at the thorough tier)
+		c.Deadline = []time.Duration{500 * time.Millisecond, 3300 * time.Millisecond, 30500 * time.Millisecond}[t.Intn(3)]
 	}
 	c.MayCancel = t.Chance(1, 5)
 	{
@@ -460,7 +463,7 @@ func (w *World) newCall() *call {
 				w.s.Probe("twin-of-live-call")
 			}
 		} else if c.Kind != "getscts" && w.conc >= 2 && len(w.calls)+1 < w.maxCalls && t.Chance(1, 4) {
-			c.Deadline = []time.Duration{500 * time.Millisecond, 3 * time.Second}[t.Intn(2)]
+			c.Deadline = []time.Duration{500 * time.Millisecond, 3300 * time.Millisecond}[t.Intn(2)]
 			c.MayCancel = false
 			w.twinOwed = c
 		}
